@@ -299,6 +299,49 @@ pub struct QuoteMetres {
     pub ms: Vec<u32>,
 }
 
+// a hand-written implementation for a generic type (it relies on the provided `ident()`), sharing a file with a derived type
+pub struct ManualPage<T>(pub Vec<T>);
+impl<T: TS> TS for ManualPage<T> {
+    type WithoutGenerics = ManualPage<ts_rs::Dummy>;
+    type OptionInnerType = Self;
+    fn name() -> String {
+        format!("ManualPage<{}>", <T as TS>::name())
+    }
+    fn inline() -> String {
+        format!("{{ items: Array<{}>, }}", <T as TS>::name())
+    }
+    fn inline_flattened() -> String {
+        <Self as TS>::inline()
+    }
+    fn decl() -> String {
+        "type ManualPage<T> = { items: Array<T>, };".to_owned()
+    }
+    fn decl_concrete() -> String {
+        format!("type ManualPage = {};", <Self as TS>::inline())
+    }
+    fn output_path() -> Option<std::path::PathBuf> {
+        Some(std::path::PathBuf::from("m/manual.ts"))
+    }
+    fn visit_generics(v: &mut impl ts_rs::TypeVisitor)
+    where
+        Self: 'static,
+    {
+        v.visit::<T>();
+        <T as TS>::visit_generics(v);
+    }
+}
+#[derive(TS)]
+#[ts(export_to = "m/manual.ts")]
+pub struct ManualOther {
+    pub a: u8,
+}
+#[derive(TS)]
+#[ts(export_to = "m/manual.ts")]
+pub struct ManualUser {
+    pub plain: ManualPage<u8>,
+    pub nested: ManualPage<Vec<String>>,
+}
+
 pub fn registry() -> Vec<TypeEntry> {
     vec![
         TypeEntry::serde::<UA>("UA", "UA"),
@@ -346,6 +389,11 @@ pub fn registry() -> Vec<TypeEntry> {
         TypeEntry::ts::<QuoteDistance>("QuoteDistance", "QuoteDistance"),
         TypeEntry::ts::<QuoteMetre>("QuoteMetre", "QuoteMetre"),
         TypeEntry::ts::<QuoteMetres>("QuoteMetres", "QuoteMetres"),
+        TypeEntry::ts::<ManualPage<u8>>("ManualPage", "ManualPage<u8>"),
+        TypeEntry::ts::<ManualPage<Vec<String>>>("ManualPage#nested", "ManualPage<Vec<String>>"),
+        TypeEntry::ts::<ManualPage<Option<ManualPage<bool>>>>("ManualPage#twice", "ManualPage<Option<ManualPage<bool>>>"),
+        TypeEntry::ts::<ManualOther>("ManualOther", "ManualOther"),
+        TypeEntry::ts::<ManualUser>("ManualUser", "ManualUser"),
         // not exportable roots
         TypeEntry::ts::<i32>("prim:i32", "i32"),
         TypeEntry::ts::<Vec<UA>>("prim:Vec<UA>", "Vec<UA>"),
